@@ -1,6 +1,7 @@
 import Driver.Util
 import Driver.C02
 import Driver.C04
+import Driver.C19
 /-
   Line-protocol driver: one operation per input line, one canonical output line per operation.
   Imports `Model/` only (no Mathlib, no proofs) so that it links as a `lean_exe`.
@@ -12,7 +13,8 @@ structure DState where
   rd : RdState := {}
 
 def handlers : List Handler := [
-  Driver.C04.handle
+  Driver.C04.handle,
+  Driver.C19.handle
 ]
 
 def step (st : DState) (line : String) : DState × String :=
